@@ -71,6 +71,12 @@ struct Engine {
 
 extern const Engine ENGINE;
 
+/// The query named by a replay file (`xquery=`), or nullptr: set by the driver before a replayed case runs, read by gen_queries().
+inline const std::string *&replay_xquery() {
+    static const std::string *q = nullptr;
+    return q;
+}
+
 /// e_seg, C03: the "beyond 2^32 points" class is selected by the driver (environment, thorough tier) or by a replay file of such a case.
 inline bool beyond32_mode(const RunCtx &ctx) { return ctx.prop == "C03" && (getenv("VF_C03_BEYOND32") != nullptr || ctx.x("xbeyond32") != nullptr); }
 
